@@ -129,7 +129,8 @@ def decode32 (inp : List Nat) : Option (List Nat) :=
   | none => none
   | some vec =>
     let vec := packVec vec
-    some (vec.take 16 ++ (vec.drop 16).take 8)
+    -- `_mm_storeu_si128(out, lo)`: bytes 0..15; `memcpy(out + decHiOff, p_hi, 8)`: 64-bit element `decHiElem`
+    some ((vec.take 16).take decHiOff ++ (vec.drop (8 * decHiElem)).take 8)
 
 /-- the `for (int i = 0; i < 2; i++) if (tmp_in[len - 1] == '=') { tmp_in[len - 1] = 'A'; len--; final_out--; }` loop -/
 def stripPad : Nat → List Nat × Nat × Nat → List Nat × Nat × Nat
